@@ -188,5 +188,24 @@ PROPS["C10"] = {
         "Cursor.Add with zero values and ring.Join with a nil argument are outside the documented domain and not exercised on stale cursors / at all"],
 }
 
+PROPS["C08"] = {
+    "legs": [rapid("hist", "pcache", "TestC08Hist", 4, 4000, 16, 60000)],
+    "rule": "limit in 1..12 (biased to >=6); size function absent (unit) or value-dependent (0..4, sometimes exactly the "
+            "limit or above it); keys in 0..limit+3 so that evictions happen; unique values; <=60(+limit+6) ops among Put, "
+            "putNew (Put of a key that is absent), Get, Has, Remove, Clear, with a spliced fill / touch-a-middle-aged-key / "
+            "remove-a-middle-key / refill-past-the-limit pattern in two cases of three; every case ends with Clear. After "
+            "every op the result, Len, Size and the eviction-callback log of that op (as a sequence; as a multiset for "
+            "Clear) are compared with a reference LRU cache written as a recency list (replacement reports the old pair "
+            "first, then victims in LRU order; a Put above the limit is refused and changes nothing; Has is not a use). "
+            "Strict whatever the eviction choice: Size<=limit, a callback only for a stored value and only once, every "
+            "stored value reported exactly once by the end. Known finding F2 (heapq interior removal without sift-up): "
+            "exposure = a Get-hit, Remove-hit or replacing Put while Len>=6; unexposed cases are strict; in an exposed case "
+            "a mismatch is attributed to F2 only if a re-implementation of cache.go+lru.go over the F2 deviation heap "
+            "(verif/devheap) has reproduced every result of the whole history, and from then on the cache must keep "
+            "following that model. NON-TRIVIAL iff some eviction's victim had been re-ordered by an earlier Get or had a "
+            "recency neighbour removed by Remove. Distinct = hash of the case JSON.",
+    "assumptions": COMMON_ASSUME + ["a defect whose symptoms coincide with the F2 deviation model on every generated history would be filed under F2"],
+}
+
 # Properties deliberately not claimed (reason shown in MANIFEST.not_applicable).
 NOT_APPLICABLE = {}
